@@ -62,6 +62,8 @@ MC = {
         C("three-col", 3, 3, RED2, 1, False, 1, 1),
         C("three-fixed-upd", 3, 3, FIXED, 0, True, 2, 0, types=("INT", "BIGINT", "BOOLEAN"), wrong=False),
         C("blank-twins", 1, 1, TWINS, 0, True, 3, 1, types=("VARCHAR",), wrong=False),
+        # statements that name a column the table does not have, between valid ones
+        dict(C("unknown-column", 1, 2, dict(IntCls=["1"], BigCls=["0"], StrCls=["l1"]), 0, True, 2, 1, wrong=False), WithUnknown=True),
     ],
     "thorough": [
         C("one-col-deep", 1, 1, FULL, 1, True, 3, 2),
@@ -74,6 +76,7 @@ MC = {
         C("three-fixed-upd", 3, 3, FIXED, 0, True, 2, 2, types=("INT", "BIGINT", "BOOLEAN"), wrong=False),
         C("four-fixed-upd", 4, 4, dict(IntCls=["1"], BigCls=["2p32"], StrCls=["l1"]), 0, True, 2, 0, types=("INT", "BIGINT"), wrong=False),
         C("blank-twins", 1, 2, TWINS, 0, True, 3, 2, types=("VARCHAR",), wrong=False),
+        dict(C("unknown-column", 1, 3, dict(IntCls=["1"], BigCls=["0"], StrCls=["l1"]), 0, True, 3, 1, wrong=False), WithUnknown=True),
     ],
 }
 
@@ -96,7 +99,7 @@ def mc_cfg(c):
         "  MinCols = %d" % c["MinCols"], "  MaxCols = %d" % c["MaxCols"],
         "  Types = %s" % tla_set(c["Types"]), "  IntCls = %s" % tla_set(c["IntCls"]), "  BigCls = %s" % tla_set(c["BigCls"]),
         "  StrCls = %s" % tla_set(c["StrCls"]), "  WithNull = %s" % tla_bool(c["WithNull"]), "  WithWrong = %s" % tla_bool(c["WithWrong"]),
-        "  MaxBad = %d" % c["MaxBad"], "  WithUpd = %s" % tla_bool(c["WithUpd"]), "  MaxMut = %d" % c["MaxMut"],
+        "  MaxBad = %d" % c["MaxBad"], "  WithUpd = %s" % tla_bool(c["WithUpd"]), "  WithUnknown = %s" % tla_bool(c.get("WithUnknown", False)), "  MaxMut = %d" % c["MaxMut"],
         "  MaxLife = %d" % c["MaxLife"], "  LifeFrom = %d" % c.get("LifeFrom", 0), '  EmitSel = "%s"' % c.get("EmitSel", "all"),
         "  MixedUpd = %s" % tla_bool(c.get("MixedUpd", False)), "  EmitOn = %s" % tla_bool(c.get("EmitOn", True)),
         "INIT MCInit", "NEXT MCNext", "VIEW View", "ACTION_CONSTRAINT Emit",
